@@ -270,7 +270,47 @@ def deser_cases(rng, a, b, sb, want, desc):
         e2.detach()
 
 
+@__import__("dataclasses").dataclass(frozen=True)
+class Derived(zoo.Expr):
+    """comparable content that is NOT a constructor argument: `value` (init=False, comparable) is computed from the
+    non-comparable `text` before the base initialiser runs"""
+    text: str = __import__("dataclasses").field(default="", compare=False)
+    value: int = __import__("dataclasses").field(init=False, default=0)
+
+    def __post_init__(self):
+        object.__setattr__(self, "value", len(self.text))
+        super().__post_init__()
+
+
+def special_value_cases(rng):
+    """(1) comparable init=False properties are content; (2) str values with lone surrogates: if the library accepts them
+    at all, different strings are different content"""
+    for t1, t2 in (("a", "bb"), ("", "x"), ("ab", "cd"), ("abc", "abc")):
+        a, b = Derived(text=t1), Derived(text=t2)
+        same = len(t1) == len(t2)
+        bad = None
+        if (a.content_id == b.content_id) != same or a.is_equal(b) != same:
+            bad = (f"Derived(text={t1!r}).value={a.value} vs Derived(text={t2!r}).value={b.value}: content_id equal="
+                   f"{a.content_id == b.content_id}, is_equal={a.is_equal(b)} (a comparable init=False property is content)")
+        yield Case("directed:noninit-comparable", None, None, True, f"Derived(text={t1!r}) vs Derived(text={t2!r})", oracle_fail=bad,
+                   sig="cid|directed|noninit-comparable")
+        del a, b
+    for s1, s2 in (("\udcc3\udca9", "\u00e9"), ("\udc80", "\x80"), ("a\udcff", "a\u00ff"), ("\udce2\udc82\udcac", "\u20ac"),
+                   ("\ud800", "\ud801")):
+        try:
+            n1, n2 = zoo.Two(a=s1, b="k"), zoo.Two(a=s2, b="k")
+        except Exception:  # noqa  (the library refuses such strings: nothing to compare)
+            yield Case("directed:surrogates", None, None, False, f"Two(a={s1!r}) is refused by the library", sig="cid|directed|surrogates")
+            continue
+        bad = None
+        if n1.content_id == n2.content_id or n1.is_equal(n2):
+            bad = f"Two(a={s1!r}) and Two(a={s2!r}) are different strings but share a content_id / are is_equal"
+        yield Case("directed:surrogates", None, None, True, f"Two(a={s1!r}) vs Two(a={s2!r})", oracle_fail=bad, sig="cid|directed|surrogates")
+        del n1, n2
+
+
 def cases(rng: random.Random, tier: str):
+    yield from special_value_cases(rng)
     n_pairs = 250 if tier == "quick" else 6000
     rec = _Rec(pnode.hashlib)
     pnode.hashlib = rec
